@@ -64,6 +64,26 @@ PROPS = {
                  "a rule field set to the empty string is 'not given' (as the code treats it)"],
         assumptions=["rule data without two keys differing only in letter case (Go map order would decide)"],
     ),
+    "C16": dict(
+        lean_props="Receptor.Props.C16",
+        engines=[dict(engine="unreach", pkg=NETC, test="TestVerifUnreach", n_quick=150, n_thorough=1500),
+                 dict(engine="pkt", pkg=NETC, test="TestVerifPkt", n_quick=300, n_thorough=3000)],
+        corr_ops={"unreach": ["deliver"], "pkt": ["handle", "walk"]},
+        facts=["unreach_unknown_branch", "unreach_socket_filter", "unreach_dial_cancel", "unreach_notice_fields", "unreach_sent_from"],
+        trusted=["utils.Broker delivers every published notice to every subscriber in publication order (modelled as such)",
+                 "QUIC handshake time-out (15 s) vs notice latency is measured by the mesh engine, not proved"],
+        assumptions=["the closing of a listener relative to a send is modelled as listener open / not open at the moment of dispatch"],
+    ),
+    "C18": dict(
+        lean_props="Receptor.Props.C18",
+        engines=[dict(engine="ads", pkg=NETC, test="TestVerifAds", n_quick=400, n_thorough=4000)],
+        corr_ops={"ads": ["run"]},
+        facts=["ads_keep_test", "ads_tombstones", "ads_relay"],
+        trusted=["advertisement times are generator-chosen logical times injected into the messages (no wall clock)",
+                 "network-level convergence is proved as order-independence per node (tombstone variant); the periodic re-advertisement "
+                 "that heals lost messages is exercised by the mesh engine, not modelled"],
+        assumptions=["distinct timestamps per (node, service) for the order-independence theorem"],
+    ),
     "C20": dict(
         lean_props="Receptor.Props.C20",
         engines=[dict(engine="der", pkg="pkg/utils", test="TestVerifDER", n_quick=400, n_thorough=4000),
